@@ -1073,7 +1073,14 @@ Proof.
   - destruct (compile a) as [cc|] eqn:E; [|discriminate C]. inversion C; subst. destruct (IH cc eq_refl) as [B1 B2].
     constructor; cbn [base_rows c_from c_cols c_defs]; [exact B1|]. apply base_new_defs. exact B2.
   - destruct m; [discriminate C|]. apply IH. exact C.
-  - discriminate C.
+  - destruct (compile a) as [cc|] eqn:E; [|discriminate C]. inversion C; subst; clear C.
+    constructor; cbn [base_rows c_from c_cols c_defs].
+    + intros d b x Hb Hx. apply in_map_iff in Hb. destruct Hb as [u [<- _]]. rewrite map_map in Hx. simpl in Hx.
+      rewrite map_id in Hx. exact Hx.
+    + intros x y H. unfold def_of in H.
+      destruct (assoc_u x (map (fun u : uid => (u, ECol u)) (c_scope cc))) as [e|] eqn:Ea; [|destruct H].
+      clear -Ea H. induction (c_scope cc) as [|u L IH]; simpl in Ea; [discriminate|].
+      destruct (N.eqb x u); [inversion Ea; subst; simpl in H; destruct H as [<-|[]]; left; reflexivity|right; apply IH; exact Ea].
   - destruct how; try discriminate C.
     + destruct (compile l) as [cl|] eqn:El; [|discriminate C]. destruct (compile r) as [cr|] eqn:Er; [|discriminate C].
       inversion C; subst; clear C. destruct (IHl cl eq_refl) as [L1 L2]. destruct (IHr cr eq_refl) as [R1 R2].
@@ -1652,6 +1659,61 @@ Proof.
   - cbn [group do_join]. symmetry. exact PL.
 Qed.
 
+(* ---------- subquery marker ---------- *)
+Definition marker_compiled (cc : compiled) : compiled :=
+  let sc := c_scope cc in
+  let q := c_q cc in
+  {| c_from := FRows (fun d => map (fun u => map (fun x => (x, evd (c_defs cc) u x)) sc) (final_units d cc));
+     c_cols := sc;
+     c_q := {| q_select := q_select q; q_part := q_part q; q_group := []; q_where := []; q_having := [];
+               q_order := []; q_limit := None; q_offset := 0; q_summ := false |};
+     c_labels := c_labels cc;
+     c_defs := map (fun x => (x, ECol x)) sc;
+     c_scope := sc |}.
+
+Lemma get_map_val (g : uid -> value) L u : In u L -> get (map (fun x => (x, g x)) L) u = g u.
+Proof.
+  induction L as [|y L IH]; intros H; [destruct H|]. simpl.
+  destruct (N.eqb_spec y u) as [E|E]; [subst; reflexivity|]. destruct H as [H|H]; [contradiction|]. apply IH. exact H.
+Qed.
+
+Lemma marker_case d s cc :
+  Inv d s cc -> Aux cc ->
+  Inv d {| rows := rows s; sel := sel s; group := group s; ord_defined := false; bad := bad s |} (marker_compiled cc)
+  /\ Aux (marker_compiled cc).
+Proof.
+  intros [R S G] A. set (sc := c_scope cc). set (cm := marker_compiled cc).
+  assert (AUX : Aux cm).
+  { destruct A as [A1 A2 A3 A4 A5 A6 A7 A8 A9 A10].
+    constructor; unfold cm, marker_compiled; cbn [c_scope c_defs c_q c_labels q_select q_part q_group q_where q_having q_order q_summ q_limit q_offset].
+    - intros x Hx. rewrite map_map. simpl. rewrite map_id. exact Hx.
+    - exact A2.
+    - exact A3.
+    - exact A4.
+    - intros x Hx. destruct Hx.
+    - intros p Hp. destruct Hp.
+    - intros p Hp. destruct Hp.
+    - intros o Ho. destruct Ho.
+    - intros _. split; reflexivity.
+    - intros l H. discriminate H. }
+  split; [|exact AUX].
+  constructor; cbn [rows sel group].
+  - set (B := map (fun u : unit_ => map (fun x : uid => (x, evd (c_defs cc) u x)) sc) (final_units d cc)).
+    assert (EF : final_units d cm = map (fun ir => (index_rows B, ir)) (index_rows B)).
+    { rewrite (final_units_rows d cm AUX eq_refl eq_refl eq_refl). cbv zeta.
+      assert (EB : filter (fun r => all_true (c_defs cm) (q_where (c_q cm)) (mk1 r)) (base_rows d cm) = B).
+      { unfold cm, marker_compiled, base_rows. cbn [c_from c_defs c_q q_where]. fold sc.
+        rewrite (filter_ext _ (fun _ => true)) by reflexivity. apply filter_true. }
+      rewrite EB. reflexivity. }
+    rewrite EF. apply Forall2_map_r. generalize (index_rows B) at 1. intros ctx.
+    apply Forall2_index_rows_r. unfold B. apply Forall2_map_r.
+    eapply Forall2_impl'; [|exact R]. intros r u Hru i x Hx. cbn [c_scope cm marker_compiled] in Hx. fold sc in Hx.
+    unfold evd. cbn [fst snd c_defs cm marker_compiled]. fold sc. rewrite (def_self sc x Hx). simpl.
+    rewrite (get_map_val (fun y => eval (fst u) (snd u) (def_of (c_defs cc) y)) sc x Hx). apply (Hru x Hx).
+  - exact S.
+  - exact G.
+Qed.
+
 (* ---------- the theorem ---------- *)
 Theorem compile_invariant d : forall a c, compile a = Some c -> flat_ok a = true -> Inv d (sem_ref d a) c /\ Aux c.
 Proof.
@@ -1703,7 +1765,8 @@ Proof.
     destruct (IH cc eq_refl Fa) as [I A]. cbn [sem_ref]. apply negb_true_iff in G5.
     apply (summarize_case d (sem_ref d a) cc defs); assumption.
   - destruct m as [m|]; [simpl in C; discriminate C|]. simpl in C, F. cbn [sem_ref do_alias]. apply IH; assumption.
-  - simpl in C. discriminate C.
+  - cbn [compile] in C. cbn [flat_ok] in F. destruct (compile a) as [cc|] eqn:E; [|discriminate C]. inversion C; subst; clear C.
+    destruct (IH cc eq_refl F) as [I A]. cbn [sem_ref]. fold (marker_compiled cc). apply marker_case; assumption.
   - cbn [compile] in C. cbn [flat_ok] in F. destruct how; try discriminate C.
     + destruct (compile l) as [cl|] eqn:El; [|discriminate C]. destruct (compile r) as [cr|] eqn:Er; [|discriminate C].
       inversion C; subst; clear C.
